@@ -345,6 +345,26 @@ def violate(src, n, v):
     return set_at(v, path, new), m, "/".join("%s" % (k,) for _, k in path) or "."
 
 
+def drop_and_rename(src, n, v):
+    """-> (value with one component removed, the same value with that component renamed instead, path text) or None: the renamed
+    entry keeps its value and sorts right after the old name, so the two values differ only by one extra, unrelated entry"""
+    pos = [(path, node) for path, node, what in positions(n, v) if what == "value" and isinstance(get_at(v, path), dict) and "c" in get_at(v, path)
+           and get_at(v, path)["c"]]
+    if not pos:
+        return None
+    path, _ = src.choice(pos)
+    cur = get_at(v, path)
+    names = [a for a, _ in cur["c"]]
+    old = src.choice(names)
+    new_name = old + "0"
+    if new_name in names:
+        return None
+    dropped = {"c": [[a, b] for a, b in cur["c"] if a != old]}
+    renamed = {"c": [[(new_name if a == old else a), b] for a, b in cur["c"]]}
+    where = "/".join("%s" % (k,) for _, k in path) or "."
+    return set_at(v, path, dropped), set_at(v, path, renamed), where
+
+
 # ------------------------------------------------------------------------------------------------------------------
 # FEEL text of values and allowed values
 # ------------------------------------------------------------------------------------------------------------------
